@@ -10,7 +10,7 @@ n = 0
 for p in sorted(glob.glob(os.path.join(ROOT, 'evidence', 'replays', pid + '-*.json'))):
     r = json.load(open(p))
     if 'key' not in r or r['key'] in have: continue
-    kf['findings'].append(dict(property=pid, key=r['key'], what=r['what'].split(';')[0], witness={k: r[k] for k in r if k in ('case', 'rendering', 'exception', 'mnemonic', 'impl', 'expected')}))
+    kf['findings'].append(dict(property=pid, key=r['key'], what=r['what'].split(';')[0], witness={k: r[k] for k in r if k in ('case', 'rendering', 'exception', 'mnemonic', 'impl', 'expected', 'detail')}))
     have.add(r['key']); n += 1
 json.dump(kf, open(os.path.join(ROOT, 'known_findings.json'), 'w'), indent=1)
 print('added', n)
